@@ -101,6 +101,9 @@ func (ep *episode) baseFile(spec string) ([]byte, error) {
 		}
 		buf.WriteString("endsolid verif\n")
 		out = buf.Bytes()
+	case "lines": // N lines that are not vertex lines: style 0 empty, 1 CRLF only, 2 a junk word, 3 a keyword line
+		line := []string{"\n", "\r\n", "xyzzy\n", "  endloop\n"}[((num(2)%4)+4)%4]
+		out = bytes.Repeat([]byte(line), num(1))
 	case "rand": // arbitrary bytes
 		r := simcore.NewRNG(uint64(num(2)))
 		out = make([]byte, num(1))
@@ -419,6 +422,9 @@ func guardedLoad(entry, path string) loadOutcome {
 		o.elapsed = time.Since(t0)
 		runtime.ReadMemStats(&m1)
 		o.alloc = m1.TotalAlloc - m0.TotalAlloc
+		if m1.StackInuse > m0.StackInuse {
+			o.alloc += m1.StackInuse - m0.StackInuse // a stack that grew with the input is memory too
+		}
 	}()
 	select {
 	case o := <-done:
